@@ -82,6 +82,17 @@ LongCases ==
    /\ P(CaseRec("long", "Unsqueeze", <<>>, <<X, I64(<<0, 2>>)>>, SemUnsqueeze(X, I64(<<0, 2>>)), <<"valid", "long">>))
    /\ P(CaseRec("long", "Shape", <<>>, <<X2>>, SemShape(X2), <<"valid", "long">>))
 
+\* tiling law (Outcome.tla): the leading axis is carried through; the harness repeats the operand beyond a million elements
+TileEmit(op, attrs, ins, a, Sem(_)) ==
+   TileLaw(Sem, ins, {1}) => P(CaseRec("tile", op, attrs, ins, a, <<"valid", "tile_law">>) @@ [tile |-> TileField({1})])
+TileShapeCases ==
+   LET X == Iota("f32", <<3, 2, 2>>, 0) Y == Iota("i64", <<3, 4>>, 0) Z == Iota("f32", <<3, 1, 2>>, 0) W == Iota("f32", <<3, 2>>, 0) IN
+   /\ \A ax \in {1, 2, -1, 3} : TileEmit("Flatten", <<AI("axis", ax)>>, <<X>>, SemFlatten(X, ax), LAMBDA ins : SemFlatten(ins[1], ax))
+   /\ \A tg \in {<<0, 2, 2>>, <<0, -1>>, <<-1, 4>>, <<-1, 2>>, <<0, 4, 1>>} : TileEmit("Reshape", <<>>, <<Y, I64(tg)>>, SemReshape(Y, I64(tg)), LAMBDA ins : SemReshape(ins[1], ins[2]))
+   /\ TileEmit("Squeeze", <<>>, <<Z>>, SemSqueeze(Z, Nil), LAMBDA ins : SemSqueeze(ins[1], Nil))
+   /\ \A ax \in {<<1>>, <<-2>>} : TileEmit("Squeeze", <<>>, <<Z, I64(ax)>>, SemSqueeze(Z, I64(ax)), LAMBDA ins : SemSqueeze(ins[1], ins[2]))
+   /\ \A ax \in {<<1>>, <<-1>>, <<1, 3>>, <<2, 1>>} : TileEmit("Unsqueeze", <<>>, <<W, I64(ax)>>, SemUnsqueeze(W, I64(ax)), LAMBDA ins : SemUnsqueeze(ins[1], ins[2]))
+
 Init ==
    \/ ("reshape" \in Fams /\ st \in [fam : {"reshape"}, shape : {s \in InShapes : Len(s) <= ReshapeRank}, target : Targets, done : {FALSE}])
    \/ ("reshape" \in Fams /\ st \in [fam : {"reshape0"}, shape : {s \in InShapes : Len(s) <= 2}, v : TargetVals \cup {5}, done : {FALSE}])
@@ -102,7 +113,7 @@ Emit ==
                                   /\ \A axes \in AxesLists(Len(st.shape), AxesLen) : P(SqueezeCase(st.shape, axes, FALSE))
         [] st.fam = "unsqueeze" -> \A axes \in AxesLists(Len(st.shape) + 1, MinI(AxesLen, 5 - Len(st.shape))) :
                                       (Len(axes) > 1 => Range(axes) \subseteq AxisVals(Len(st.shape) + Len(axes))) => P(UnsqueezeCase(st.shape, axes))
-        [] st.fam = "shape"    -> P(ShapeCase(st.shape, "f32")) /\ (Len(st.shape) <= 2 => ExtremeAxisCases(st.shape)) /\ (st.shape = <<>> => LongCases /\ \A X \in SpecialValueXs : \A i \in 1..5 : P(DtypeCasesX(X.dt \o "_special", X)[i]))
+        [] st.fam = "shape"    -> P(ShapeCase(st.shape, "f32")) /\ (Len(st.shape) <= 2 => ExtremeAxisCases(st.shape)) /\ (st.shape = <<>> => LongCases /\ TileShapeCases /\ \A X \in SpecialValueXs : \A i \in 1..5 : P(DtypeCasesX(X.dt \o "_special", X)[i]))
         [] st.fam = "dtypes"   -> \A i \in 1..5 : P(DtypeCases(st.dt, st.shape)[i])
    /\ st' = [st EXCEPT !.done = TRUE]
 Next == Emit
